@@ -39,12 +39,13 @@ func init() {
 			checkC17Help(c, budget(c.Tier, 400, 40000))
 		}}
 	props["C19"] = propRun{
-		rule: "(a) tags rendered from random (key, value) lists with strconv.Quote and random blanks, one third mutated at a random byte position, through the scanner; (b) generated declarations (15% deliberately malformed / colliding / over-long short names / defaults on flags) built on the real library and in the model, full dump of the public model compared, attributes checked against reflect.StructTag; distinct per tag / declaration",
+		rule: "(a) tags rendered from random (key, value) lists with strconv.Quote and random blanks, one third mutated at a random byte position, through the scanner; (b) generated declarations (15% deliberately malformed / colliding / over-long short names / defaults on flags) built on the real library and in the model, full dump of the public model compared, attributes checked against reflect.StructTag; (c) duplicates stage: one declaration with two options of different groups sharing a short or (namespaced) long name - top level / nested / sibling groups / two levels deep / created by a namespace - must be refused with ErrDuplicatedFlag, controls accepted; distinct per tag / declaration",
 		run: func(c *Ctx) {
 			c.N = budget(c.Tier, 3000, 300000)
 			checkC19Scan(c)
 			checkStdlibModel(c, budget(c.Tier, 400, 20000))
 			checkC19Model(c, budget(c.Tier, 400, 40000))
+			checkC19Duplicates(c, budget(c.Tier, 300, 6000))
 		}}
 	props["C02"] = propRun{
 		rule: "(a) option tokens in all spellings over ASCII / multi-byte / invalid names and arbitrary values through the splitting functions; (b) metamorphic groups: one generated declaration and surrounding argument vector, one occurrence of one option rendered as -xV, -x=V, -x V, --name=V, --name V and quoted forms; (c) cluster groups -abc [V] / -a -b -c [V] / -ab -c [V] with non-ASCII flags; (d) random whole-parser cases with 40% non-ASCII names; distinct per token / group",
@@ -62,7 +63,7 @@ func init() {
 			runParseCases(c, budget(c.Tier, 1500, 60000), pp, func(cr *CaseResult) { oracleNoPanic(c, cr) })
 		}}
 	props["C11"] = propRun{
-		rule: "(a) all integer kinds x bases 2..36 x texts at and around the type limits with signs, leading zeros, blanks, underscores, junk through convert; (b) whole-parser cases over numeric / float32 / float64 / duration / bool / map / pointer / slice options with values at and beyond the limits (1e39 for float32, 1e400, NaN, inf), choices and unconvertible values; distinct per (kind, base, text) / case",
+		rule: "(a) all integer kinds x bases 2..36 x texts at and around the type limits with signs, leading zeros, blanks, underscores, junk through convert; (b) whole-parser cases over numeric / float32 / float64 / duration / bool / map / pointer / slice options with values at and beyond the limits (1e39 for float32, 1e400, NaN, inf), choices and unconvertible values; (c) value stage: one option of every integer kind and base / float size / duration / string (scalar, slice, pointer), with or without choices, one text from the command line, the environment or the default tag; whether the text denotes a value and which is computed with the standard library at the type's size: exact stored value, ErrMarshal, or ErrInvalidChoice listing every allowed value; distinct per (kind, base, text) / case",
 		run: func(c *Ctx) {
 			c.N = budget(c.Tier, 6000, 500000)
 			checkC11Ints(c)
@@ -76,6 +77,7 @@ func init() {
 			p.Weird = 0.02
 			p.ArgvLen = 6
 			runParseCases(c, budget(c.Tier, 1500, 100000), p, func(cr *CaseResult) { oracleNoPanic(c, cr) })
+			checkC11Values(c, budget(c.Tier, 2500, 150000))
 		}}
 }
 
@@ -116,6 +118,13 @@ func init() {
 		p.Weird = 0.15
 		p.BadDecl = 0.01
 	}, oracleNoPanic, oracleConserved)
+	{
+		base := props["C03"]
+		props["C03"] = propRun{rule: base.rule + "; conserve stage: command lines built token by token from occurrences of declared options (attached and separate values), plain words (among them ---x, ---, -), unknown options and the terminator, under every combination of PassDoubleDash / PassAfterNonOption / IgnoreUnknown, with and without positional fields; which tokens are passed through - and so what the positional fields and the remaining arguments must hold, in order - is computed from the construction", run: func(c *Ctx) {
+			base.run(c)
+			checkC03Conserve(c, budget(c.Tier, 1500, 60000))
+		}}
+	}
 	parseProp("C04", caseRule+"emphasis: arbitrary bytes, malformed tokens, PrintErrors", 2500, 100000, func(p *Profile) {
 		p.ArgvLen = 8
 		p.Unknown = 0.15
@@ -155,9 +164,10 @@ func init() {
 	}, oracleNoPanic)
 	{
 		base := props["C08"]
-		props["C08"] = propRun{rule: base.rule + "; scope stage: command paths with occurrences of spellings that several commands of the path declare (the innermost declaration must receive the value, the outer ones stay untouched) and of options of commands outside the path (ErrUnknownFlag), expected outcome computed independently", run: func(c *Ctx) {
+		props["C08"] = propRun{rule: base.rule + "; scope stage: command paths with occurrences of spellings that several commands of the path declare (the innermost declaration must receive the value, the outer ones stay untouched) and of options of commands outside the path (ErrUnknownFlag), expected outcome computed independently; words stage: paths of command words given by name or by alias (with and without PassAfterNonOption), a non-command word and further tokens behind a command whose subcommands-optional mark is set independently of its parent's: active chain, ErrCommandRequired / ErrUnknownCommand / ordinary argument stated from the public model", run: func(c *Ctx) {
 			base.run(c)
 			checkC08Scope(c, budget(c.Tier, 1500, 60000))
+			checkC08Words(c, budget(c.Tier, 1200, 50000))
 		}}
 	}
 	parseProp("C09", caseRule+"emphasis: executable commands at every level, faults injected in otherwise valid vectors, CommandHandler", 2500, 100000, func(p *Profile) {
@@ -288,17 +298,18 @@ func init() {
 			checkC16(c, budget(c.Tier, 500, 50000))
 		}}
 	props["C18"] = propRun{
-		rule: "generated declarations (Completer-typed options and positionals, hidden options, nested commands) and argument vectors made of a plausible prefix and a partial last word (long/short prefixes, --name=partial, -xpartial, command prefixes, bare dash); completion list compared with the model; sortedness and hidden-name oracles; acceptance oracle against the parser itself (its own parse of the typed words gives the command context; every offered option / command, appended to those words, must be taken by the parser as that option / command; long-option and command lists must be exactly the visible ones of that context which the parser accepts there; the probes are compared with the model too); positional stage: positional fields of a completing type, k typed values, terminator / PassAfterNonOption: the type's completions are offered exactly when a field still takes the word; distinct per case",
+		rule: "generated declarations (Completer-typed options and positionals, hidden options, nested commands) and argument vectors made of a plausible prefix and a partial last word (long/short prefixes, --name=partial, -xpartial, command prefixes, bare dash); completion list compared with the model; sortedness and hidden-name oracles; acceptance oracle against the parser itself (its own parse of the typed words gives the command context; every offered option / command, appended to those words, must be taken by the parser as that option / command; long-option and command lists must be exactly the visible ones of that context which the parser accepts there; the probes are compared with the model too); positional stage: positional fields of a completing type, k typed values, terminator / PassAfterNonOption: the type's completions are offered exactly when a field still takes the word; value stage: an option of a completing type under ASCII and multi-byte short names, the last word spelling it with a partial value as --name=V, --name V, -xV, -x=V, -x V: exactly the type's completions of the partial value, re-attached to the spelling; distinct per case",
 		run: func(c *Ctx) {
 			checkC18(c, budget(c.Tier, 1500, 80000))
 			checkC18Positional(c, budget(c.Tier, 300, 10000))
+			checkC18Values(c, budget(c.Tier, 400, 20000))
 		}}
 }
 
 func init() {
 	// C07 also needs the scoping side: options of sibling / not-yet-named commands are unknown
 	base := props["C07"]
-	props["C07"] = propRun{rule: base.rule + "; second stage: deep command trees with few positionals, command words of sibling and ancestor commands, options of out-of-scope commands", run: func(c *Ctx) {
+	props["C07"] = propRun{rule: base.rule + "; second stage: deep command trees with few positionals, command words of sibling and ancestor commands, options of out-of-scope commands; policy stage: one unknown option (long, short, non-ASCII short, with inline argument, inside a cluster behind a declared flag) among declared ones under each policy (error naming it; IgnoreUnknown: passed through verbatim; handler: exactly one call with the name, the inline argument and exactly the not-yet-consumed arguments, its result parsed next, its error returned)", run: func(c *Ctx) {
 		base.run(c)
 		p := defaultProfile
 		p.MaxCmdDepth = 3
@@ -313,6 +324,7 @@ func init() {
 			oracleNoPanic(c, cr)
 			oracleHandler(c, cr)
 		})
+		checkC07Unknown(c, budget(c.Tier, 1500, 60000))
 	}}
 }
 
